@@ -5,6 +5,11 @@ Local Open Scope Z_scope.
 
 Definition B32 : Z := 4294967296.
 
+Arguments mpint : simpl never.
+Arguments sstr : simpl never.
+Arguments u32 : simpl never.
+Arguments mp_body : simpl never.
+
 (* ------------------------------------------------------------------------------------------ *)
 (* big-endian bytes and their decoding                                                          *)
 
@@ -188,6 +193,11 @@ Proof.
   apply mp_body_inj, H.
 Qed.
 
+Lemma mpint_unfold v : mpint v = u32 (mp_nbytes v) ++ mp_body v.
+Proof. reflexivity. Qed.
+
+Global Opaque mpint sstr u32 mp_body.
+
 (* ------------------------------------------------------------------------------------------ *)
 (* the exchange hash input                                                                      *)
 
@@ -276,8 +286,8 @@ Proof.
   destruct rq as [|a0 [|a1 [|a2 [|a3 [|? ?]]]]]; simpl in H4; try lia.
   destruct rq' as [|b0 [|b1 [|b2 [|b3 [|b4 [|b5 [|b6 [|b7 [|b8 [|b9 [|b10 [|b11 [|? ?]]]]]]]]]]]]];
     simpl in H12; try lia.
-  simpl in H. injection H as _ _ _ _ H.
-  unfold mpint in H. rewrite <- !app_assoc in H.
+  cbn [enc_fields app] in H. injection H as _ _ _ _ H.
+  rewrite (mpint_unfold p) in H. rewrite <- !app_assoc in H.
   change (b4 :: b5 :: b6 :: b7 :: b8 :: b9 :: b10 :: b11 :: mpint p' ++ mpint g' ++ mpint e' ++ mpint f' ++ kb)
     with ([b4; b5; b6; b7] ++ (b8 :: b9 :: b10 :: b11 :: mpint p' ++ mpint g' ++ mpint e' ++ mpint f' ++ kb)) in H.
   apply app_eq_len in H; [|rewrite u32_length; reflexivity]. destruct H as [H _].
@@ -378,19 +388,6 @@ Qed.
 
 (* both roles compute the same choice: the client from (its list without markers, the server's KEXINIT
    list), the server from (the client's KEXINIT list, its list without markers) *)
-Theorem choose_agree lc ls xc xs :
-  (forall x, In x xs -> ~ In x lc) -> (forall x, In x xc -> ~ In x ls) ->
-  side_choose true lc (ls ++ xs) = side_choose false ls (lc ++ xc) /\
-  side_choose true lc (ls ++ xs) = choose_alg (lc ++ xc) (ls ++ xs) .
-Proof.
-  intros H1 H2. unfold side_choose.
-  rewrite choose_server_extra by assumption. rewrite choose_client_extra by assumption.
-  split; [reflexivity|].
-  rewrite choose_server_extra.
-  - rewrite choose_client_extra by assumption. reflexivity.
-  - intros x Hx Hin. apply in_app_or in Hin. destruct Hin as [Hin|Hin]; [apply (H1 x Hx Hin)|].
-Abort.
-
 Theorem choose_agree lc ls xc xs :
   (forall x, In x xs -> ~ In x lc) -> (forall x, In x xc -> ~ In x ls) ->
   side_choose true lc (ls ++ xs) = side_choose false ls (lc ++ xc).
